@@ -5,6 +5,7 @@ CONSTANT NTrees = 2
 CONSTANT NKw = 3
 CONSTANT WithPut = TRUE
 CONSTANT Filter = TRUE
+CONSTANT Rand = FALSE
 INIT Init
 NEXT Next
 INVARIANT CallerMapsUnchanged
